@@ -143,6 +143,19 @@ def gen_mixed_batch(pyrng, nmax=10):
     return c
 
 
+def gen_small_scale(pyrng, nmax=10):
+    """operators of small overall scale (1e-4 .. 1e-9) with the usual tolerances: every remainder norm is far below the ABSOLUTE
+    tol/2 although the Krylov space is not exhausted (region of flag arnoldi_absolute_clip)"""
+    g = np.random.default_rng(pyrng.getrandbits(64))
+    c = gen_case(pyrng, frozenset(), nmax=nmax, force=dict(kind="dense", start="random", n=int(g.integers(2, nmax + 1))))
+    sc = float(g.choice([1e-4, 1e-6, 1e-6, 1e-8, 1e-9]))
+    c["parts"] = [enc(sc * dec(c["parts"][0]))]
+    c["opscale"] = sc
+    c["tol"] = float(g.choice([1e-7, 1e-6, 1e-6, 1e-3]))
+    c["max_iters"] = int(g.choice([2, c["n"] - 1 if c["n"] > 2 else 2, c["n"], c["n"] + 2]))
+    return c
+
+
 # ----------------------------------------------------------------------------------------------- exact-arithmetic stream
 def _pow2(g):
     return float(g.choice([1.0, -1.0, 2.0, -0.5, 4.0]))
@@ -224,6 +237,7 @@ def gen_exact_case(pyrng):
         tols += [2.0 * first_norm, 2.0 * first_norm]            # remainder norm == tol/2 exactly
     if first_norm and ref:
         tols += [first_norm / ref]                              # remainder norm == tol * ||A q_0|| (exact when the quotient is dyadic)
+        tols += [2.0 * first_norm / ref]                        # remainder norm == tol/2 * ||A q_0|| (relative breakdown threshold)
     mis = [1, 2, max(1, grade - 1), grade, grade + 1, max(1, n - 1), n, n + 1, n + 3]
     batch = 0 if g.random() < 0.8 else 2
     V = np.stack([v, -2.0 * np.asarray(v)][:max(batch, 1)], 0)
@@ -232,14 +246,14 @@ def gen_exact_case(pyrng):
     return c
 
 
-def coq_elem_cases(c, obs, capped=False, rfix=False, cfix=False):
+def coq_elem_cases(c, obs, capped=False, rfix=False, cfix=False, afix=False):
     """one single-start Coq case per batch element (element b of the batched call against the run on v_b alone)"""
     S = dense_of(c)
     V = dec(c["v"])
     out = []
     for b in range(len(obs["Q"])):
         el = "(" + coq_mat(dec(obs["Q"][b])) + "," + coq_mat(dec(obs["H"][b])) + ")"
-        fl = ("true" if rfix else "false") + " " + ("true" if cfix else "false")
+        fl = " ".join("true" if f else "false" for f in (rfix, cfix, afix))
         t = f"mk_acase {c['n']} {coq_mat(S)} {fl} {coq_mat(V[b:b + 1])} {c['max_iters']} {hexf(c['tol'])} [{el}]"
         out.append(f"cap_case ({t})" if capped else t)
     return out
@@ -352,14 +366,14 @@ def run_impl(c):
     return obs
 
 
-def coq_case(c, obs, capped=False, rfix=False, cfix=False):
+def coq_case(c, obs, capped=False, rfix=False, cfix=False, afix=False):
     """capped: compare with the repaired model variant arnoldi_batch_capped (probe says arnoldi_padding is gone)"""
     S = dense_of(c)
     V = dec(c["v"])
     outs = []
     for b in range(len(obs["Q"])):
         outs.append("(" + coq_mat(dec(obs["Q"][b])) + "," + coq_mat(dec(obs["H"][b])) + ")")
-    fl = ("true" if rfix else "false") + " " + ("true" if cfix else "false")
+    fl = " ".join("true" if f else "false" for f in (rfix, cfix, afix))
     t = f"mk_acase {c['n']} {coq_mat(S)} {fl} {coq_mat(V)} {c['max_iters']} {hexf(c['tol'])} [" + ";".join(outs) + "]"
     return f"cap_case ({t})" if capped else t
 
@@ -453,7 +467,10 @@ def oracle(c, obs, present=frozenset()):
         sd = sd.real
         # active part: leading columns whose sub-diagonal entry is clearly above rounding level
         # a remainder of norm <= tol/2 is a breakdown for the repaired normalisation (zero column); for the pinned one see `clipped` below
-        live = max(1e-6 * scale, 0.0 if garbage_ok else c["tol"] / 2.0)
+        # breakdown threshold of the normalisation: the absolute tol/2 (flag arnoldi_absolute_clip) or tol/2 * ||A q_0||
+        aq0 = float(np.linalg.norm(S @ v) / np.linalg.norm(v))
+        thr = c["tol"] / 2.0 * (1.0 if "arnoldi_absolute_clip" in present else aq0)
+        live = max(1e-6 * scale, 0.0 if garbage_ok else thr)
         a = 0
         while a < m and sd[a] > live:
             a += 1
@@ -470,7 +487,7 @@ def oracle(c, obs, present=frozenset()):
         done = int(np.sum(np.abs(H).max(axis=0) > 0)) if m > 0 else 0
         # (tol is relative to the size of the first Krylov vector: H[1,0] in the pinned code, ||A q_0|| in the repaired one; either is accepted)
         aq0 = float(np.linalg.norm(S @ v) / np.linalg.norm(v))
-        if 1 <= done < cap and sd[done - 1] > max(2.0 * c["tol"] * max(sd[0], aq0), c["tol"] / 2.0) + 1e-6 * scale:
+        if 1 <= done < cap and sd[done - 1] > max(2.0 * c["tol"] * max(sd[0], aq0), thr) + 1e-6 * scale:
             bad.append(tag + f"only {done} of min(max_iters,n)={cap} Arnoldi steps although the last remainder is {sd[done - 1]:.3g} "
                              f"(H[1,0]={sd[0]:.3g}, tol={c['tol']}): truncated factorisation, A Q[:, :m] = Q H fails")
         # orthonormality of the columns whose sub-diagonal entry exceeds the tolerance
@@ -495,7 +512,7 @@ def oracle(c, obs, present=frozenset()):
                     bad.append(tag + f"non-zero columns after the factorisation closed at step {a + 1} (iteration continued through rounding noise)")
                 # (a zero column is demanded when the remainder is within the tolerance the caller gave, norm <= tol/2; with a tolerance
                 #  below the rounding level of the run the remainder "exceeds the tolerance" and is legitimately normalised)
-                if a + 1 <= m and np.abs(H[:, a]).max() > 0 and not garbage_ok and sd[a] <= c["tol"] / 2.0 and np.abs(Q[:, a + 1]).max() > 1e-12:
+                if a + 1 <= m and np.abs(H[:, a]).max() > 0 and not garbage_ok and sd[a] <= thr and np.abs(Q[:, a + 1]).max() > 1e-12:
                     bad.append(tag + f"column {a + 1} after breakdown is neither zero nor a unit vector (norm {np.linalg.norm(Q[:, a + 1]):.3g})")
             U, grade = krylov_basis(S, v, min(n, a + 2))
             if grade is not None and a > grade:
